@@ -3549,4 +3549,47 @@ theorem consecutive_below (w : World) (n : Nat) (t : Typ) (tr : Bool) (o : Oracl
     rw [sameClock_suppressed (markUnavail_clock _ n t tr o)]; exact i1
 
 
+/-! ## matching of generations is per group -/
+
+theorem lookupLast_some {β : Type} (p : β → Bool) (l : List β) (x : β) (h : lookupLast p l = some x) :
+    x ∈ l ∧ p x = true := by
+  unfold lookupLast at h
+  exact ⟨List.mem_reverse.mp (List.mem_of_find?_eq_some h), List.find?_some h⟩
+
+/-- every pair produced for new group `G` joins a member of `G` with a same-named member of an old group
+that has `G`'s name -/
+theorem matchGroup_sound (olds : List GenGroup) (G : GenGroup) (p : Nat × Nat) (hp : p ∈ matchGroup olds G) :
+    ∃ og ∈ olds, og.gname = G.gname ∧ ∃ nm, (p.1, nm) ∈ G.members ∧ (p.2, nm) ∈ og.members := by
+  unfold matchGroup at hp
+  split at hp
+  · simp at hp
+  · rename_i og hog
+    obtain ⟨h1, h2⟩ := lookupLast_some _ _ _ hog
+    simp only [List.mem_filterMap, Option.map_eq_some_iff] at hp
+    obtain ⟨nm, hnm, m, hm, rfl⟩ := hp
+    obtain ⟨h3, h4⟩ := lookupLast_some _ _ _ hm
+    refine ⟨og, h1, by simpa using h2, nm.2, ?_, ?_⟩
+    · exact hnm
+    · have : m.2 = nm.2 := by simpa using h4
+      rw [← this]; exact h3
+
+theorem restoreGroups_nodes_other (o : Oracle) (n : Nat) (gs : List ReloadGroup) : ∀ w : World,
+    (∀ G ∈ gs, ∀ p ∈ G.pairs, p.1 ≠ n) → (restoreGroups gs w o).1.nodes n = w.nodes n := by
+  have h1 : ∀ (ps : List (Nat × Nat)) (w : World), (∀ p ∈ ps, p.1 ≠ n) → (inheritPairs ps w o).1.nodes n = w.nodes n := by
+    intro ps
+    induction ps with
+    | nil => intro w _; rfl
+    | cons p ps ih =>
+      intro w hp
+      simp only [inheritPairs]
+      rw [ih _ (fun q hq => hp q (List.mem_cons_of_mem _ hq)),
+        restore_nodes_other _ _ _ _ _ (Ne.symm (hp p List.mem_cons_self))]
+  induction gs with
+  | nil => intro w _; rfl
+  | cons G gs ih =>
+    intro w hp
+    simp only [restoreGroups]
+    rw [ih _ (fun G' hG' => hp G' (List.mem_cons_of_mem _ hG')), h1 _ _ (hp G List.mem_cons_self)]
+
+
 end DaeVerif.C16
